@@ -151,6 +151,18 @@ class Ctx:
         self.off = float(np.abs(self.P).max())
         self.tol = 1e-7 * self.ext + 1e-11 * self.off
         self.full = bool(spans(self.P))
+        self.tiny = False
+        if d == 3 and self.full:
+            # classification only (never used to judge): the facets qhull produces for this input
+            try:
+                from scipy.spatial import ConvexHull
+
+                h = ConvexHull(self.P, qhull_options="QbB Pp Qt")
+                tri = self.P[h.simplices]
+                cr = np.linalg.norm(np.cross(tri[:, 1] - tri[:, 0], tri[:, 2] - tri[:, 0]), axis=1)
+                self.tiny = bool(cr.min() < 1e-12)
+            except Exception:  # noqa
+                self.tiny = False
 
     def tag(self, q):
         return "%s:%s:%s:%dd" % (q, self.cls, self.xf, self.d)
@@ -162,6 +174,24 @@ class Ctx:
 
     def klass(self):
         return "%dd" % self.d
+
+
+def _family(key):
+    return key.split(" ", 1)[0]
+
+
+def _v(run, cx, key, what, wit):
+    """
+    Clouds whose hull has a facet with |cross product| < 1e-12 (10x tol.zero): convex_hull drops
+    such facets as "zero magnitude" (absolute threshold), so the hull, and everything computed
+    from its vertices, is judged under one key per query family.
+    """
+    if getattr(cx, "tiny", False) and _family(key) in ("hull", "obb", "sphere", "cylinder"):
+        key = "%s class=hull_facet_cross_below_10x_tol_zero sym=facets_dropped_or_consequence" % _family(key)
+    elif not cx.full and _family(key) == "obb" and " sym=" in key:
+        # input that does not span the dimension takes the coplanar branch whatever the route
+        key = "obb input=not_spanning %s sym=%s" % (cx.klass(), key.split(" sym=", 1)[1])
+    run.violation(key, what, wit)
 
 
 def rigid_defects(M, d):
@@ -200,14 +230,14 @@ def check_hull(run, cx, hull, route, refused_ok=False):
     F = np.asarray(hull.faces, dtype=np.int64)
     run.case(cx.tag("hull:" + route), P, nontrivial=cx.full and len(P) > 4)
     if len(F) < 4 or len(V) < 4:
-        run.violation(key + " sym=too_few_faces", "hull of a full-dimensional cloud has < 4 faces", cx.wit(route=route, faces=len(F)))
+        _v(run, cx, key + " sym=too_few_faces", "hull of a full-dimensional cloud has < 4 faces", cx.wit(route=route, faces=len(F)))
         return
     # 1. vertices are input points, exactly
     rows = {r.tobytes() for r in P}
     foreign = [i for i, v in enumerate(np.ascontiguousarray(V)) if v.tobytes() not in rows]
     if foreign:
         near = float(np.min(np.linalg.norm(P - V[foreign[0]], axis=1)))
-        run.violation(key + " sym=vertex_not_an_input_point", "a hull vertex is not (bitwise) one of the input points",
+        _v(run, cx, key + " sym=vertex_not_an_input_point", "a hull vertex is not (bitwise) one of the input points",
                       cx.wit(route=route, vertex=V[foreign[0]].tolist(), nearest_input_distance=near))
     # 2. watertight + consistent winding: each directed edge once, its reverse once
     E = {}
@@ -221,12 +251,12 @@ def check_hull(run, cx, hull, route, refused_ok=False):
         for (a, b), c in E.items():
             undirected[(min(a, b), max(a, b))] = undirected.get((min(a, b), max(a, b)), 0) + c
         sym = "not_watertight" if any(c != 2 for c in undirected.values()) else "winding_inconsistent"
-        run.violation(key + " sym=" + sym, "hull faces do not form a closed consistently wound surface", cx.wit(route=route))
+        _v(run, cx, key + " sym=" + sym, "hull faces do not form a closed consistently wound surface", cx.wit(route=route))
     # 3. outward: positive signed volume
     c0 = V.mean(axis=0)
     vol6 = float(np.einsum("ij,ij->i", V[F[:, 0]] - c0, np.cross(V[F[:, 1]] - c0, V[F[:, 2]] - c0)).sum())
     if closed and not vol6 > 0:
-        run.violation(key + " sym=inward_wound", "hull has non-positive signed volume", cx.wit(route=route, volume6=vol6))
+        _v(run, cx, key + " sym=inward_wound", "hull has non-positive signed volume", cx.wit(route=route, volume6=vol6))
     # 4. every input point on the inner side of every face plane
     Nn, L = tri_normals(V, F)
     if closed and vol6 < 0:
@@ -238,7 +268,7 @@ def check_hull(run, cx, hull, route, refused_ok=False):
     run.state("hull_depth_band", "out>tol" if worst > cx.tol else "ok")
     if worst > cx.tol:
         pi, fi = np.unravel_index(int(Dist.argmax()), Dist.shape)
-        run.violation(key + " sym=input_point_outside", "an input point lies outside a hull face plane",
+        _v(run, cx, key + " sym=input_point_outside", "an input point lies outside a hull face plane",
                       cx.wit(route=route, point=P[pi].tolist(), outside_by=worst, tol=cx.tol))
     # 5. convex: the oracle's own adjacent-face projections
     if closed:
@@ -252,7 +282,7 @@ def check_hull(run, cx, hull, route, refused_ok=False):
             if good[fi] and good[fj]:
                 worstp = max(worstp, float(Nn[fi] @ (V[opp] - V[a])))
         if worstp > cx.tol:
-            run.violation(key + " sym=not_convex", "a neighbouring face's opposite vertex lies above a face plane", cx.wit(route=route, by=worstp))
+            _v(run, cx, key + " sym=not_convex", "a neighbouring face's opposite vertex lies above a face plane", cx.wit(route=route, by=worstp))
         # the library's projections on the same pairs
         try:
             from trimesh import convex
@@ -272,23 +302,23 @@ def check_hull(run, cx, hull, route, refused_ok=False):
                 mine[r] = float(n0 @ (V[un[0]] - V[sh[0]]))
             run.count("adjacency_projections_compared", int(okrow.sum()))
             if len(lib) != len(adj):
-                run.violation("hull fn=adjacency_projections sym=wrong_length %s" % cx.klass(), "one projection per adjacent pair expected", cx.wit(route=route))
+                _v(run, cx, "hull fn=adjacency_projections sym=wrong_length %s" % cx.klass(), "one projection per adjacent pair expected", cx.wit(route=route))
             elif okrow.any() and np.abs(lib[okrow] - mine[okrow]).max() > 1e-6 * cx.ext + cx.tol:
                 r = int(np.abs(np.where(okrow, lib - mine, 0)).argmax())
-                run.violation("hull fn=adjacency_projections sym=differs_from_recomputed %s" % cx.klass(),
+                _v(run, cx, "hull fn=adjacency_projections sym=differs_from_recomputed %s" % cx.klass(),
                               "projection of the neighbour's opposite vertex onto the face normal differs from the recomputed one",
                               cx.wit(route=route, observed=float(lib[r]), expected=float(mine[r])))
             conv = bool(hull.is_convex)
             run.count("is_convex_on_hulls")
             if not conv and worstp <= 0.1 * cx.tol and not (~good).any():
-                run.violation("hull fn=is_convex sym=hull_reported_non_convex %s" % cx.klass(), "is_convex is False on a convex hull", cx.wit(route=route, worst_projection=worstp))
+                _v(run, cx, "hull fn=is_convex sym=hull_reported_non_convex %s" % cx.klass(), "is_convex is False on a convex hull", cx.wit(route=route, worst_projection=worstp))
         except Exception as e:  # noqa
-            run.violation("hull fn=adjacency_projections sym=exception:%s %s" % (type(e).__name__, cx.klass()), "raised %r" % (e,), cx.wit(route=route))
+            _v(run, cx, "hull fn=adjacency_projections sym=exception:%s %s" % (type(e).__name__, cx.klass()), "raised %r" % (e,), cx.wit(route=route))
     # 6. support function on sampled directions (nothing extreme was dropped)
     U = np.vstack([np.eye(3), -np.eye(3), _DIRS3])
     hp, hv = (P @ U.T).max(axis=0), (V @ U.T).max(axis=0)
     if (hp - hv).max() > cx.tol:
-        run.violation(key + " sym=extreme_point_missing", "an extreme input point in a sampled direction is not a hull vertex", cx.wit(route=route, by=float((hp - hv).max())))
+        _v(run, cx, key + " sym=extreme_point_missing", "an extreme input point in a sampled direction is not a hull vertex", cx.wit(route=route, by=float((hp - hv).max())))
 
 
 _DIRS3 = np.random.default_rng(12345).normal(size=(60, 3))
@@ -305,29 +335,29 @@ def check_hull_points(run, cx):
         H = np.asarray(convex.hull_points(P.copy()))
     except Exception as e:  # noqa
         if cx.full:
-            run.violation(key + " sym=exception:%s" % type(e).__name__, "hull_points raised %r on a full-dimensional cloud" % (e,), cx.wit())
+            _v(run, cx, key + " sym=exception:%s" % type(e).__name__, "hull_points raised %r on a full-dimensional cloud" % (e,), cx.wit())
         else:
             run.skip("hull_points refused input that does not span the dimension")
         return
     run.case(cx.tag("hull_points"), P, nontrivial=cx.full and len(P) > d + 1)
     rows = {r.tobytes() for r in P}
     if H.ndim != 2 or H.shape[1] != d:
-        run.violation(key + " sym=wrong_shape", "result is not (k, d)", cx.wit(shape=list(H.shape)))
+        _v(run, cx, key + " sym=wrong_shape", "result is not (k, d)", cx.wit(shape=list(H.shape)))
         return
     if any(np.ascontiguousarray(h).tobytes() not in rows for h in H):
-        run.violation(key + " sym=vertex_not_an_input_point", "a returned hull point is not one of the input points", cx.wit())
+        _v(run, cx, key + " sym=vertex_not_an_input_point", "a returned hull point is not one of the input points", cx.wit())
     U = _DIRS3 if d == 3 else _DIRS2
     U = np.vstack([np.eye(d), -np.eye(d), U])
     gap = (P @ U.T).max(axis=0) - (H @ U.T).max(axis=0)
     if gap.max() > cx.tol:
-        run.violation(key + " sym=extreme_point_missing", "an extreme input point is not among the returned hull points", cx.wit(by=float(gap.max())))
+        _v(run, cx, key + " sym=extreme_point_missing", "an extreme input point is not among the returned hull points", cx.wit(by=float(gap.max())))
     if d == 2 and len(H) >= 3:
         # convex position: every returned point is extreme (strictly outside the hull of the
         # others) or on its boundary - test by orientation along the scipy (ccw) order
         a, b, c = H, np.roll(H, -1, axis=0), np.roll(H, -2, axis=0)
         cr = (b[:, 0] - a[:, 0]) * (c[:, 1] - b[:, 1]) - (b[:, 1] - a[:, 1]) * (c[:, 0] - b[:, 0])
         if not ((cr >= -cx.tol * cx.ext).all() or (cr <= cx.tol * cx.ext).all()):
-            run.violation(key + " sym=not_in_convex_position", "returned 2-D hull points are not a convex polygon in order", cx.wit())
+            _v(run, cx, key + " sym=not_in_convex_position", "returned 2-D hull points are not a convex polygon in order", cx.wit())
 
 
 # ------------------------------------------------------------------------------------------
@@ -343,23 +373,23 @@ def check_aabb(run, cx, obj, route):
         lo, hi = P.min(axis=0), P.max(axis=0)
         if b.shape != (2, 3) or not (np.array_equal(b[0], lo) and np.array_equal(b[1], hi)):
             sym = "not_containing" if b.shape == (2, 3) and ((b[0] > lo).any() or (b[1] < hi).any()) else "not_tight"
-            run.violation(key + " fn=bounds sym=" + sym, "bounds differ from the exact min / max of the vertices", cx.wit(route=route, observed=b.tolist(), expected=[lo.tolist(), hi.tolist()]))
+            _v(run, cx, key + " fn=bounds sym=" + sym, "bounds differ from the exact min / max of the vertices", cx.wit(route=route, observed=b.tolist(), expected=[lo.tolist(), hi.tolist()]))
         ex = np.asarray(obj.extents, dtype=np.float64)
         if np.abs(ex - (hi - lo)).max() > 1e-12 * cx.ext:
-            run.violation(key + " fn=extents sym=differs", "extents differ from max - min", cx.wit(route=route, observed=ex.tolist()))
+            _v(run, cx, key + " fn=extents sym=differs", "extents differ from max - min", cx.wit(route=route, observed=ex.tolist()))
         box = obj.bounding_box
         Tm = np.asarray(box.primitive.transform, dtype=np.float64)
         be = np.asarray(box.primitive.extents, dtype=np.float64)
         q = P - Tm[:3, 3]
         if np.abs(Tm[:3, :3] - np.eye(3)).max() > 0:
-            run.violation(key + " fn=bounding_box sym=rotated", "axis aligned box has a rotation", cx.wit(route=route))
+            _v(run, cx, key + " fn=bounding_box sym=rotated", "axis aligned box has a rotation", cx.wit(route=route))
         slack = 1e-12 * (cx.ext + cx.off)
         if (np.abs(q) > be / 2 + slack).any():
-            run.violation(key + " fn=bounding_box sym=not_containing", "a vertex lies outside the axis aligned bounding box", cx.wit(route=route))
+            _v(run, cx, key + " fn=bounding_box sym=not_containing", "a vertex lies outside the axis aligned bounding box", cx.wit(route=route))
         if np.abs(be - (hi - lo)).max() > slack or np.abs(Tm[:3, 3] - (lo + hi) / 2).max() > slack:
-            run.violation(key + " fn=bounding_box sym=not_tight", "bounding_box extents / centre differ from the exact ones", cx.wit(route=route, extents=be.tolist()))
+            _v(run, cx, key + " fn=bounding_box sym=not_tight", "bounding_box extents / centre differ from the exact ones", cx.wit(route=route, extents=be.tolist()))
     except Exception as e:  # noqa
-        run.violation(key + " sym=exception:%s" % type(e).__name__, "axis aligned bounds raised %r" % (e,), cx.wit(route=route))
+        _v(run, cx, key + " sym=exception:%s" % type(e).__name__, "axis aligned bounds raised %r" % (e,), cx.wit(route=route))
 
 
 def judge_obb(run, cx, M, extents, route, Q=None):
@@ -370,22 +400,22 @@ def judge_obb(run, cx, M, extents, route, Q=None):
     M = np.asarray(M, dtype=np.float64)
     extents = np.asarray(extents, dtype=np.float64)
     for sym in rigid_defects(M, d):
-        run.violation(key + " sym=transform_" + sym, "the oriented-box transform is not a proper rigid motion", cx.wit(route=route, matrix=M.tolist()))
+        _v(run, cx, key + " sym=transform_" + sym, "the oriented-box transform is not a proper rigid motion", cx.wit(route=route, matrix=M.tolist()))
         if sym == "malformed":
             return
     if extents.shape != (d,) or not np.isfinite(extents).all():
-        run.violation(key + " sym=extents_malformed", "extents are not (d,) finite", cx.wit(route=route))
+        _v(run, cx, key + " sym=extents_malformed", "extents are not (d,) finite", cx.wit(route=route))
         return
     q = P @ M[:d, :d].T + M[:d, d]
     lo, hi = q.min(axis=0), q.max(axis=0)
     tol = 1e-6 * cx.ext + 1e-10 * cx.off
     run.state("obb_branch", (route, "flat" if extents.min() < 1e-3 * extents.max() else "full"))
     if (np.abs(q) > extents / 2 + tol).any():
-        run.violation(key + " sym=not_containing", "a transformed point lies outside the box of the reported extents", cx.wit(route=route, by=float((np.abs(q) - extents / 2).max())))
+        _v(run, cx, key + " sym=not_containing", "a transformed point lies outside the box of the reported extents", cx.wit(route=route, by=float((np.abs(q) - extents / 2).max())))
     if np.abs(lo + hi).max() / 2 > tol:
-        run.violation(key + " sym=not_centred", "the transformed points' bounding box is not centred at the origin", cx.wit(route=route, centre=((lo + hi) / 2).tolist()))
+        _v(run, cx, key + " sym=not_centred", "the transformed points' bounding box is not centred at the origin", cx.wit(route=route, centre=((lo + hi) / 2).tolist()))
     if np.abs((hi - lo) - extents).max() > tol:
-        run.violation(key + " sym=extents_differ", "reported extents differ from the extents of the transformed points", cx.wit(route=route, observed=extents.tolist(), expected=(hi - lo).tolist()))
+        _v(run, cx, key + " sym=extents_differ", "reported extents differ from the extents of the transformed points", cx.wit(route=route, observed=extents.tolist(), expected=(hi - lo).tolist()))
 
 
 def check_obb(run, cx, obj, route):
@@ -404,7 +434,7 @@ def check_obb(run, cx, obj, route):
             M, ex = bounds.oriented_bounds(obj)
     except Exception as e:  # noqa
         if cx.full:
-            run.violation("obb route=%s %s sym=exception:%s" % (route, cx.klass(), type(e).__name__), "oriented bounds raised %r on a full-dimensional input" % (e,), cx.wit(route=route))
+            _v(run, cx, "obb route=%s %s sym=exception:%s" % (route, cx.klass(), type(e).__name__), "oriented bounds raised %r on a full-dimensional input" % (e,), cx.wit(route=route))
         else:
             run.skip("oriented bounds refused input that does not span the dimension")
         return
@@ -424,20 +454,20 @@ def check_apply_obb(run, cx, obj, route):
         after = np.asarray(c.vertices, dtype=np.float64)
     except Exception as e:  # noqa
         if cx.full:
-            run.violation(key + " sym=exception:%s" % type(e).__name__, "apply_obb raised %r" % (e,), cx.wit(route=route))
+            _v(run, cx, key + " sym=exception:%s" % type(e).__name__, "apply_obb raised %r" % (e,), cx.wit(route=route))
         return
     for sym in rigid_defects(M, 3):
-        run.violation(key + " sym=transform_" + sym, "apply_obb returned a non-rigid matrix", cx.wit(route=route))
+        _v(run, cx, key + " sym=transform_" + sym, "apply_obb returned a non-rigid matrix", cx.wit(route=route))
         return
     tol = 1e-6 * cx.ext + 1e-10 * cx.off
     if after.shape != before.shape or np.abs(after - (before @ M[:3, :3].T + M[:3, 3])).max() > tol:
-        run.violation(key + " sym=vertices_not_transformed_by_returned_matrix", "vertices after apply_obb are not matrix @ vertices before", cx.wit(route=route))
+        _v(run, cx, key + " sym=vertices_not_transformed_by_returned_matrix", "vertices after apply_obb are not matrix @ vertices before", cx.wit(route=route))
         return
     lo, hi = after.min(axis=0), after.max(axis=0)
     if np.abs(lo + hi).max() / 2 > tol:
-        run.violation(key + " sym=not_centred", "after apply_obb the bounding box is not centred at the origin", cx.wit(route=route))
+        _v(run, cx, key + " sym=not_centred", "after apply_obb the bounding box is not centred at the origin", cx.wit(route=route))
     if np.abs((hi - lo) - np.asarray(ex0)).max() > tol:
-        run.violation(key + " sym=extents_differ", "after apply_obb the extents differ from the oriented-bounds extents", cx.wit(route=route, observed=(hi - lo).tolist(), expected=np.asarray(ex0).tolist()))
+        _v(run, cx, key + " sym=extents_differ", "after apply_obb the extents differ from the oriented-bounds extents", cx.wit(route=route, observed=(hi - lo).tolist(), expected=np.asarray(ex0).tolist()))
 
 
 # ------------------------------------------------------------------------------------------
@@ -474,19 +504,19 @@ def check_sphere(run, cx, obj, route, mb=None):
         c, r = np.asarray(c, dtype=np.float64), float(r)
     except Exception as e:  # noqa
         if cx.full:
-            run.violation(key + " sym=exception:%s" % type(e).__name__, "bounding sphere raised %r on a full-dimensional input" % (e,), cx.wit(route=route))
+            _v(run, cx, key + " sym=exception:%s" % type(e).__name__, "bounding sphere raised %r on a full-dimensional input" % (e,), cx.wit(route=route))
         else:
             run.skip("bounding sphere refused input that does not span the dimension")
         return
     run.case(cx.tag("sphere:%s:support=%s" % (route, scls)), P, nontrivial=cx.full and (scls in "234" or len(P) > d + 1))
     run.state("sphere_support", (cx.klass(), scls))
     if c.shape != (d,) or not np.isfinite(c).all() or not np.isfinite(r):
-        run.violation(key + " sym=malformed", "centre / radius not finite or of the wrong shape", cx.wit(route=route, centre=repr(c), radius=repr(r)))
+        _v(run, cx, key + " sym=malformed", "centre / radius not finite or of the wrong shape", cx.wit(route=route, centre=repr(c), radius=repr(r)))
         return
     far = float(np.linalg.norm(P - c, axis=1).max())
     tol = 1e-7 * cx.ext + 1e-11 * cx.off
     if far > r + tol:
-        run.violation(key + " sym=not_containing", "a point lies outside the bounding sphere", cx.wit(route=route, outside_by=far - r, radius=r))
+        _v(run, cx, key + " sym=not_containing", "a point lies outside the bounding sphere", cx.wit(route=route, outside_by=far - r, radius=r))
     if scls in ("2", "3", "4"):
         run.count("sphere_minimality_judged_support_%s_%s" % (scls, cx.klass()))
         if r > mb["radius"] * (1 + 1e-6) + tol:
@@ -507,20 +537,24 @@ def judge_cylinder(run, cx, Tm, radius, height, route):
     key = "cylinder route=%s" % route
     Tm = np.asarray(Tm, dtype=np.float64)
     if Tm.shape != (4, 4) or not np.isfinite(Tm).all() or not np.isfinite([radius, height]).all():
-        run.violation(key + " sym=malformed", "cylinder parameters malformed", cx.wit(route=route))
+        _v(run, cx, key + " sym=malformed", "cylinder parameters malformed", cx.wit(route=route))
         return
     for sym in rigid_defects(Tm, 3):
-        run.violation(key + " sym=transform_" + sym, "cylinder transform is not rigid", cx.wit(route=route, matrix=Tm.tolist()))
+        _v(run, cx, key + " sym=transform_" + sym, "cylinder transform is not rigid", cx.wit(route=route, matrix=Tm.tolist()))
         return
     Rm, t = Tm[:3, :3], Tm[:3, 3]
     q = (cx.P - t) @ Rm  # inverse of a rigid transform
-    tol = 1e-6 * cx.ext + 1e-10 * cx.off
+    # minimum_cylinder measures radius / height through transformations.transform_points, which
+    # treats a matrix within 1e-8 of the identity as the identity (transformations.py:2181): the
+    # optimiser's residual rotation (~1e-9 rad) is applied in the returned transform but not in
+    # the measurement.  10x that documented shortcut times the lever arm |p|.
+    tol = 1e-6 * cx.ext + 1e-7 * cx.off
     rr = np.linalg.norm(q[:, :2], axis=1).max()
     hh = np.abs(q[:, 2]).max()
     if rr > radius + tol:
-        run.violation(key + " sym=radius_not_containing", "a vertex is farther from the axis than the radius", cx.wit(route=route, by=float(rr - radius)))
+        _v(run, cx, key + " sym=radius_not_containing", "a vertex is farther from the axis than the radius", cx.wit(route=route, by=float(rr - radius)))
     if hh > height / 2 + tol:
-        run.violation(key + " sym=height_not_containing", "a vertex is beyond the end caps", cx.wit(route=route, by=float(hh - height / 2)))
+        _v(run, cx, key + " sym=height_not_containing", "a vertex is beyond the end caps", cx.wit(route=route, by=float(hh - height / 2)))
 
 
 def check_cylinder(run, cx, obj, route):
@@ -536,7 +570,7 @@ def check_cylinder(run, cx, obj, route):
             Tm, r, h = c.primitive.transform, float(c.primitive.radius), float(c.primitive.height)
     except Exception as e:  # noqa
         if cx.full:
-            run.violation("cylinder route=%s sym=exception:%s" % (route, type(e).__name__), "bounding cylinder raised %r on a full-dimensional input" % (e,), cx.wit(route=route))
+            _v(run, cx, "cylinder route=%s sym=exception:%s" % (route, type(e).__name__), "bounding cylinder raised %r on a full-dimensional input" % (e,), cx.wit(route=route))
         else:
             run.skip("bounding cylinder refused input that does not span the dimension")
         return
@@ -550,7 +584,7 @@ def check_primitive(run, cx, obj, route):
         name = type(p).__name__
     except Exception as e:  # noqa
         if cx.full:
-            run.violation("primitive route=%s sym=exception:%s" % (route, type(e).__name__), "bounding_primitive raised %r" % (e,), cx.wit(route=route))
+            _v(run, cx, "primitive route=%s sym=exception:%s" % (route, type(e).__name__), "bounding_primitive raised %r" % (e,), cx.wit(route=route))
         return
     run.state("bounding_primitive_kind", name)
     r2 = route + ".bounding_primitive"
@@ -560,11 +594,11 @@ def check_primitive(run, cx, obj, route):
         c, r = np.asarray(p.primitive.center, dtype=np.float64), float(p.primitive.radius)
         far = float(np.linalg.norm(cx.P - c, axis=1).max())
         if far > r + cx.tol:
-            run.violation("sphere route=%s %s sym=not_containing" % (r2, cx.klass()), "a point lies outside the bounding primitive (sphere)", cx.wit(route=r2))
+            _v(run, cx, "sphere route=%s %s sym=not_containing" % (r2, cx.klass()), "a point lies outside the bounding primitive (sphere)", cx.wit(route=r2))
     elif name == "Cylinder":
         judge_cylinder(run, cx, p.primitive.transform, float(p.primitive.radius), float(p.primitive.height), r2)
     else:
-        run.violation("primitive route=%s sym=unknown_kind" % route, "bounding_primitive is not a Box, Sphere or Cylinder", cx.wit(route=route, kind=name))
+        _v(run, cx, "primitive route=%s sym=unknown_kind" % route, "bounding_primitive is not a Box, Sphere or Cylinder", cx.wit(route=route, kind=name))
 
 
 # ------------------------------------------------------------------------------------------
@@ -631,7 +665,7 @@ def run_cloud3(run, P, cls, xf, heavy):
     try:
         objs.append(("PointCloud", trimesh.PointCloud(P.copy())))
     except Exception as e:  # noqa
-        run.violation("construct PointCloud sym=exception:%s" % type(e).__name__, repr(e), cx.wit())
+        _v(run, cx, "construct PointCloud sym=exception:%s" % type(e).__name__, repr(e), cx.wit())
     # --- hull
     hull = None
     for route in ("array", "PointCloud"):
@@ -642,7 +676,7 @@ def run_cloud3(run, P, cls, xf, heavy):
                 h = objs[1][1].convex_hull
         except Exception as e:  # noqa
             if cx.full:
-                run.violation("hull route=%s 3d sym=exception:%s" % (route, type(e).__name__), "convex_hull raised %r on a full-dimensional cloud" % (e,), cx.wit(route=route))
+                _v(run, cx, "hull route=%s 3d sym=exception:%s" % (route, type(e).__name__), "convex_hull raised %r on a full-dimensional cloud" % (e,), cx.wit(route=route))
             else:
                 run.skip("convex_hull refused input that does not span 3-D")
             continue
@@ -660,7 +694,7 @@ def run_cloud3(run, P, cls, xf, heavy):
         try:
             check_hull(run, hx, mesh.convex_hull, "Trimesh")
         except Exception as e:  # noqa
-            run.violation("hull route=Trimesh 3d sym=exception:%s" % type(e).__name__, "mesh.convex_hull raised %r" % (e,), hx.wit())
+            _v(run, cx, "hull route=Trimesh 3d sym=exception:%s" % type(e).__name__, "mesh.convex_hull raised %r" % (e,), hx.wit())
     else:
         mesh, hx = None, None
     mb = W.min_ball(P, rng=run.rng) if len(P) >= 2 else None
@@ -705,7 +739,7 @@ def run_mesh(run, mesh, cls, xf, heavy):
     try:
         check_hull(run, cx, mesh.convex_hull, "Trimesh")
     except Exception as e:  # noqa
-        run.violation("hull route=Trimesh 3d sym=exception:%s" % type(e).__name__, "mesh.convex_hull raised %r" % (e,), cx.wit())
+        _v(run, cx, "hull route=Trimesh 3d sym=exception:%s" % type(e).__name__, "mesh.convex_hull raised %r" % (e,), cx.wit())
     check_aabb(run, cx, mesh, "Trimesh")
     check_obb(run, cx, mesh, "Trimesh")
     check_obb(run, cx, mesh, "Trimesh.primitive")
